@@ -9,19 +9,19 @@ Definition str_of_mkey (k : mkey) : string :=
   | Some p => str_of_N p ++ "." ++ str_of_N (snd k)
   | None => str_of_N (snd k)
   end.
-Definition str_of_chosen (o : option (list (N * jev))) : string :=
+Definition str_of_chosen (c : cfg) (o : option (list (N * jev))) : string :=
   match o with
   | None => "-"
-  | Some ch => let '(ts, m) := correlated ch in
+  | Some ch => let '(ts, m) := correlated c ch in
                str_of_Z ts ++ ":" ++ join "," (map (fun kv : mkey * N => str_of_mkey (fst kv) ++ "=" ++ str_of_N (snd kv)) m)
   end.
-Definition str_of_outcome (o : outcome) : string :=
-  match o with Panicked => "PANIC" | Out o => str_of_chosen o end.
+Definition str_of_outcome (c : cfg) (o : outcome) : string :=
+  match o with Panicked => "PANIC" | Out o => str_of_chosen c o end.
 
 (* per arrival "<output>#<total buffered>" separated by ';', then '|' and the specification's outputs *)
 Definition join_case (c : cfg) (h : list arrival) : string :=
-  join ";" (map (fun on : outcome * nat => str_of_outcome (fst on) ++ "#" ++ str_of_nat (snd on)) (run c h))
-  ++ "|" ++ join ";" (map str_of_chosen (spec_run c h)).
+  join ";" (map (fun on : outcome * nat => str_of_outcome c (fst on) ++ "#" ++ str_of_nat (snd on)) (run c h))
+  ++ "|" ++ join ";" (map (str_of_chosen c) (spec_run c h)).
 
 Definition pp_case (ts : list Z) (cutoff : Z) : string :=
   str_of_nat (partition_point (fun t => Z.ltb t cutoff) ts).
